@@ -327,6 +327,11 @@ def run(ctx):
     for rp in ("logit", None):
         for ft in ("realnvp", "maf", "nsf"):
             items.append(("ins", {"kind": "ins", "model": "G2", "seed": ctx.seed, "kwargs": {"reparameterisation": rp, "flow_config": {"ftype": ft}, "max_iteration": 2}, "resume": "none"}))
+    # priors that vanish inside the bounding box / are not flat in the hypercube: draws are
+    # filtered after the densities were computed, the rows must stay attached to their samples
+    for mdl in ("G2cut", "G2tilt", "G2hole"):
+        for rp in ("logit", None):
+            items.append(("ins", {"kind": "ins", "model": mdl, "seed": ctx.seed, "kwargs": {"reparameterisation": rp, "max_iteration": 2}, "resume": "none"}))
     rejected = []
     labels = set()
     for (kind, cfg), res in ctx.pmap(_dispatch, items):
@@ -338,7 +343,7 @@ def run(ctx):
             ctx.violation(*v)
     ctx.set("distinct_nontrivial", len(labels))
     ctx.set("rejected_up_front", rejected)
-    ctx.set("rule", "flow lattice: 21 single deviations of the flow configuration (type, linear transform, batch norm / actnorm, mask, net, base distribution, depth, activation) x dims {2,4} x dtype {float32,float64} x weight state {fresh, trained 5 epochs, reset_weights, reset_permutations} (thorough adds the 3x4x2 product of type x linear transform x batch norm); points: 7^d grid on [-3,3]^d + 64 own samples; 2-D quadrature on a 401x401 grid adapted to the flow's own samples. Proposal lattice: latent prior x reparameterisation x flow type for FlowProposal; logit/None x flow type for the importance proposal. Distinct/non-trivial: distinct configurations")
+    ctx.set("rule", "flow lattice: 21 single deviations of the flow configuration (type, linear transform, batch norm / actnorm, mask, net, base distribution, depth, activation) x dims {2,4} x dtype {float32,float64} x weight state {fresh, trained 5 epochs, reset_weights, reset_permutations} (thorough adds the 3x4x2 product of type x linear transform x batch norm); points: 7^d grid on [-3,3]^d + 64 own samples; 2-D quadrature on a 401x401 grid adapted to the flow's own samples. Proposal lattice: latent prior x reparameterisation x flow type for FlowProposal; logit/None x flow type for the importance proposal, plus models with a cut prior, a tilted hypercube prior and a zero-likelihood region. Distinct/non-trivial: distinct configurations")
     ctx.set("exhaustive", True)
     ctx.sample({"flow": items[5][1]["flow"], "weights": items[5][1]["weights"], "dtype": items[5][1]["dtype"]})
     ctx.assume(
